@@ -87,7 +87,9 @@ def make_highlight(arm):
     return verif_highlight
 
 
-def opt_value(v, arm_hl):
+def opt_value(v, arm_hl, k=None):
+    if k == "maxNesting":
+        return int(v)
     return {"T": True, "F": False, "H": arm_hl, "None": None}.get(v, v)
 
 
@@ -234,11 +236,11 @@ class World:
         try:
             if op in ("construct", "configure"):
                 arm = self.arms.setdefault(i, Arm())
-                upd = {k: opt_value(v, make_highlight(arm)) for k, v in e["upd"]}
+                upd = {k: opt_value(v, make_highlight(arm), k) for k, v in e["upd"]}
                 ev["upd"] = [list(x) for x in e["upd"]]
                 if op == "construct":
                     self.arms[i] = arm = Arm()
-                    upd = {k: opt_value(v, make_highlight(arm)) for k, v in e["upd"]}
+                    upd = {k: opt_value(v, make_highlight(arm), k) for k, v in e["upd"]}
                     self.inst[i] = MarkdownIt(e["preset"], upd if (upd or idx % 2) else None)
                     self.stacks[i] = []
                 else:
@@ -256,7 +258,7 @@ class World:
                     out = "ValueError"
                 ev["names"] = names
             elif op == "setopt":
-                v = opt_value(e["v"], make_highlight(self.arms[i]))
+                v = opt_value(e["v"], make_highlight(self.arms[i]), e["k"])
                 if e["route"] == "attr" and e["k"] in self.K["attrkeys"]:
                     setattr(md.options, e["k"], v)
                 else:
@@ -321,6 +323,9 @@ class World:
             raise
         except Exception as ex:  # an exception where the model expects none is an observation
             out = "raised:" + type(ex).__name__
+            if op == "parse":
+                ev.setdefault("res", "raised"); ev.setdefault("fresh", "raised-fresh")
+                ev.setdefault("spy", [0, 0, 0, 0]); ev.setdefault("applied", {"main": [0, 0, 0, 0], "term": []})
         ev["out"] = out
         ev["proj"] = [self.proj(j) for j in (1, 2, 3)]
         ev["presets_ok"] = 1 if self._presets_snapshot() == self.pristine else 0
